@@ -10,7 +10,10 @@ VARIABLE l
 Rej(prop, dev) == PrintT(<<"REJ", l, prop, dev>>)
 
 JudgeDoc(e) ==
-    IF e.ret # "ok" THEN Rej("C03", IF e.ret = "panic" THEN "marshal-panicked" ELSE "marshal-returned-error")
+    \* (e.doc.links = 2: a link of the handler's own carries meta information no JSON can hold - the marshal
+    \* may refuse; if it succeeds, the document is judged like any other)
+    IF e.ret = "err" /\ e.doc.links = 2 THEN TRUE
+    ELSE IF e.ret # "ok" THEN Rej("C03", IF e.ret = "panic" THEN "marshal-panicked" ELSE "marshal-returned-error")
     \* (e.doc.handdup: the included list was filled by hand and repeats a primary resource - the clause
     \* about pairs appearing once speaks of lists built by Include, so it is not applied there)
     ELSE /\ IF WellFormed(e.doc, e.out) /\ (e.doc.handdup \/ NoDupLinkage(e.out)) THEN TRUE
@@ -37,6 +40,19 @@ Next == /\ l <= Len(Trace)
                   IF e.ret = "ok" /\ ~e.dup THEN TRUE
                   ELSE IF e.ret = "err" /\ e.foreign THEN TRUE
                   ELSE Rej("C03", IF e.ret = "panic" THEN "marshal-panicked" ELSE "NONE")
+             \* field names a query string must escape, one URL object serving three documents in a row: every
+             \* payload exposes exactly the selected attributes, the URL keeps its selection, the values come back
+             [] e.ev = "oddname" ->
+                  IF e.ret # "ok" THEN Rej("C03", "marshal-panicked")
+                  ELSE /\ IF \A i \in 1..Len(e.outs) : AsSet(e.outs[i]) = AsSet(e.sel) THEN TRUE ELSE Rej("C04", "NONE")
+                       /\ IF e.back_same THEN TRUE ELSE Rej("C02", "NONE")
+                       /\ IF e.frameok /\ e.stable THEN TRUE ELSE Rej("C11", "NONE")
+             \* included resources with distinct ids whose type and id read alike once written together: every one
+             \* of them is in the payload (C03), and the payload is the same for every order of inclusion (C11)
+             [] e.ev = "tie" ->
+                  IF e.ret # "ok" THEN Rej("C03", "marshal-panicked")
+                  ELSE /\ IF e.both_there THEN TRUE ELSE Rej("C03", "NONE")
+                       /\ IF e.same THEN TRUE ELSE Rej("C11", "NONE")
              [] e.ev = "dupname" ->
                   IF e.ret # "ok" THEN Rej("C03", "marshal-panicked")
                   ELSE /\ IF DupOK(e) THEN TRUE ELSE Rej("C04", "NONE")
